@@ -22,6 +22,17 @@ the instrumented renderable of impl/impl_c10.py (VR10, built on C08's VR):
   a `__del__`.  Model side: model/IterFin.v (Iter + oracle), `close()` as repaired by
   pending_fixes/C10_close_finalizer_raises.diff.
 
+* a close() that arrives while a frame is being rendered: fault kinds 7 / 8 = the renderable
+  calls `iterator.close()` from inside its k-th `_render_` (FOR ALL k) and lets the resulting
+  ValueError ("generator already executing") propagate / swallows it; observed additionally:
+  what the nested close() did and `_closed` right after it.  Model: model/IterReent.v.
+* sessions over ONE render data object: iterators made one after the other by
+  `_from_render_data_` (finalize False / True) and by `_animate_`, operations on the
+  current one, `data.finalize()` by the owner in between (and then the data handed in
+  again), every render-fault position; observed per step: outcome (made / refused / ...),
+  finalize calls, flag; the flag seen by every `_render_`.  Model: model/IterSession.v
+  ([scheck10]).
+
 model/IterFinTie.v judges inside Coq: [check10] / [ocheck10] = bit 1 (differs from the
 finalisation ghost of the code model Iter) + bit 2 (the observations alone contradict the
 property: double finalize, render on finalized data, leak, a caller's data finalized,
@@ -399,7 +410,7 @@ def evaluate(cases, tag="c10"):
             codes[si[idx]] = code
     if ii:
         res, errs = core.coq_shards(tag + "i", HEADER, [fcase_t(variants[k], obs[k]) for k in ii], "fcase",
-                                    "bad10 cases", shard=120)
+                                    "bad10 cases", shard=max(120, -(-len(ii) // 10)))
         errors += errs
         for idx, code in res:
             codes[ii[idx]] = code
@@ -484,26 +495,33 @@ def shrink_oneshot(c):
 def shrink_session(c):
     """greedy: drop steps (from the end first), then reset the renderable"""
     cur = plain(c)
-    changed = True
-    while changed and len(cur["steps"]) > 1:
-        changed = False
+    # shortest failing prefix (one batch), then a few rounds of single-step removals
+    cands = []
+    for k in range(1, len(cur["steps"])):
+        d = copy.deepcopy(cur)
+        d["steps"] = d["steps"][:k]
+        cands.append(d)
+    if cands:
+        hit = next((d for d, v in zip(cands, fails_spec(cands)) if v), None)
+        cur = hit or cur
+    for _ in range(6):
+        if len(cur["steps"]) <= 1:
+            break
         cands = []
         for k in reversed(range(len(cur["steps"]))):
             d = copy.deepcopy(cur)
             del d["steps"][k]
             cands.append(d)
-        verdicts = fails_spec(cands)
-        for d, v in zip(cands, verdicts):
-            if v:
-                cur, changed = d, True
-                break
+        hit = next((d for d, v in zip(cands, fails_spec(cands)) if v), None)
+        if hit is None:
+            break
+        cur = hit
     dflt = session_case([])
+    d = copy.deepcopy(cur)
     for f in ("ffaults", "stamp", "frame", "dur", "size", "total", "n"):
-        if cur.get(f) != dflt[f]:
-            d = copy.deepcopy(cur)
-            d[f] = copy.deepcopy(dflt[f])
-            if fails_spec([d])[0]:
-                cur = d
+        d[f] = copy.deepcopy(dflt[f])
+    if d != cur and fails_spec([d])[0]:
+        cur = d
     return cur
 
 
@@ -570,9 +588,9 @@ def run(ctx):
         cases = [ctx.replay["replay"]["case"]]
         n_corpus = 0
     else:
-        n_iter = 110 if ctx.quick else 1600
-        n_one = 80 if ctx.quick else 1000
-        n_sess = 60 if ctx.quick else 900
+        n_iter = 100 if ctx.quick else 1600
+        n_one = 70 if ctx.quick else 1000
+        n_sess = 50 if ctx.quick else 900
         corpus = [copy.deepcopy(c) for c in ITER_CORPUS + ONESHOT_CORPUS + SESSION_CORPUS]
         n_corpus = len(corpus)
         cases = corpus + [gen_iter(rng, i, ctx.quick) for i in range(n_iter)] \
@@ -733,7 +751,11 @@ def run(ctx):
                 "suffix (next, seek, 4 setters, close, next, drop, seek); plus, per finalizer schedule ([0] mostly, "
                 "[1], [0,1]: invocation numbers at which _finalize_render_data_ raises RuntimeError), the unfaulted "
                 "run as is and with the probe suffix, and every render-fault position (RuntimeError) with that "
-                "schedule.  Iterators are made by RenderIterator(...), "
+                "schedule; plus, per k, iterator.close() called from inside that _render_ (kind 7: its "
+                "ValueError propagates, kind 8: swallowed).  Sessions: one RenderData, 2-5 rounds of "
+                "(_from_render_data_ keep/give + 0-7 operations | _animate_) with the owner's finalize() after "
+                "45% of the rounds (after closing / dropping the iterator; 7% under a live iterator = misuse, "
+                "model agreement only), render faults enumerated.  Iterators are made by RenderIterator(...), "
                 "_from_render_data_(finalize=False) and _from_render_data_(finalize=True); histories come from the C08 "
                 "generator (frame counts {2,3,5,INDEFINITE}, loops {-1,1,2,3}, all cache / padding / duration kinds, "
                 "close / drop inside the history, invalid constructor arguments); faults inside render data creation "
@@ -754,6 +776,11 @@ def run(ctx):
             "'garbage-collected' = CPython reference counting: RenderIterator.__del__ / RenderData.__del__ run as "
             "soon as the last reference (including the traceback of a propagating exception) is dropped; the "
             "driver drops its references and calls gc.collect()",
+            "re-entrancy: only iterator.close() from inside _render_ is modelled (clean refusal: generator.close() "
+            "raises ValueError while the generator is executing); seek/set_* from inside _render_ and calls from "
+            "other threads are not",
+            "sessions: one current iterator at a time over the shared RenderData; the owner does not finalize under "
+            "a live iterator (such sessions are compared with the model but not judged by the property)",
             "the generator object of _iterate is modelled by its two suspension points (Iter.v, shared with C08); "
             "generator.close() at a plain yield runs no code",
             "skeleton lemmas: the call table of harness/tx/tx_skel.py (which calls create / finalize render data, "
